@@ -40,6 +40,11 @@ CHECKS.update({
         text=NOTIF_TEXT + "C12 oracle: payloads carry (sender, sender's open period, mode, sequence number, deterministic padding); per (sender, mode) the receiver must see, for each period, the gap-free in-order prefix 0,1,2.. exactly once, periods in order; every delivered notification is byte-identical to one that was sent and not larger than the maximum; bursts exceed the sync/async channel sizes, readers stall, streams close and reopen mid-burst; an asynchronous send that stays stuck for 40 s while the stream is open and the receiver reads is a violation.", ref="DESIGN.md §5 C12"),
 })
 
+CHECKS.update({
+    "C09": dict(engine="nodesim", technique="deterministic simulation on one virtual clock (std Instant + tokio timers): seeded schedules and activity scripts timed around the keep-alive expiry; exact expected-close oracle",
+        text="Seeded search over schedules and activity scripts with two complete litep2p nodes (real TransportService/KeepAliveTracker, ConnectionHandle/Permit, TcpConnection, ProtocolSet, optional ping and identify) on a simulated network and a single virtual clock that drives both std::time::Instant and tokio timers. Only node 1 has the keep-alive timeout T under test, so the expected close instant is computed exactly from the recorded history: E = max over protocols of (last substream request/receipt or connection notification + T) and the release of the last keep-alive substream or pending open. Oracle: the connection closes no earlier than E - 3 ms, no later than E + 150 ms, never while a keep-alive substream or pending open is held; ping/identify traffic does not prolong it; one or two overlapping connections.", ref="DESIGN.md §5 C09"),
+})
+
 NOT_BUILT = {
 }
 
